@@ -37,6 +37,21 @@ def gen_configs(ck: core.Check) -> Dict[str, Any]:
     return core.read_json(p)
 
 
+def in_parallel(jobs: Sequence[Any]) -> List[Any]:
+    """Run independent TLC jobs (callables) concurrently; staggered so that metadir names (ms timestamps) differ.
+    An exception of any job (MachineryFailure) is re-raised."""
+    import concurrent.futures
+    import time as _t
+
+    def run(k_job: Any) -> Any:
+        k, job = k_job
+        _t.sleep(0.25 * k)
+        return job()
+
+    with concurrent.futures.ThreadPoolExecutor(max_workers=max(1, len(jobs))) as pool:
+        return list(pool.map(run, list(enumerate(jobs))))
+
+
 def item_key(item: Dict[str, Any]) -> str:
     return json.dumps(item, sort_keys=True)
 
@@ -133,7 +148,7 @@ def validate(ck: core.Check, traces: List[Dict[str, Any]], cfg: str, what: str, 
         part = traces[off : off + chunk]
         pp = ck.work / ("traces_part_%d.json" % off)
         core.write_json(pp, part)
-        return ck.tlc("PipelineTrace", cfg, what="V: %s" % what, env={"VERIF_OBS": str(pp)}, cont=True, workers=1, timeout=1500, jvm=("-Xmx3g",))
+        return ck.tlc("PipelineTrace", cfg, what="V: %s" % what, env={"VERIF_OBS": str(pp)}, cont=True, workers=1, timeout=1500, jvm=("-Xmx3g", "-Xss64m"))
 
     with concurrent.futures.ThreadPoolExecutor(max_workers=4) as pool:
         results = list(pool.map(one, offs))
